@@ -5,6 +5,7 @@
 package c16
 
 import (
+	"github.com/openfga/openfga/internal/verifh/e1"
 	"context"
 	"fmt"
 	"sort"
@@ -604,5 +605,6 @@ func Run(o *core.Options) int {
 		per[c.backend] = map[string]any{"states": b.States, "transitions": b.Transitions, "states_per_depth": b.PerDepth, "max_events_per_store": c.perStore, "max_events_total": c.total}
 	}
 	r.Set("per_backend", per)
+	e1.MergeSub(o, r, "tsres", "C16", "resolver_interleavings", "typesystem.MemoizedTypesystemResolverFunc over storagewrappers.NewCachedOpenFGADatastore over a memory datastore with scheduling points around its model operations (golang.org/x/sync/singleflight instrumented): 2-4 threads of resolve(store, latest|explicit id) and model writes on two stores that share model ids, every interleaving up to the preemption bound; every answer must be one a linearizable model store could give (no model of another store, the latest model right after a write returned), also for sequential resolves after all threads finished (cache poisoning)")
 	return r.Finish()
 }
